@@ -103,7 +103,7 @@ def link_run(ratio, nbytes, gap, values=None, rec=None, horizon=None):
         rdy = w['ser_ready'].get()
         vld = w['ser_valid'].get()
         if not is_conc(rdy):
-            raise core.Unsupported('serializer ready became data dependent')
+            raise DataDependentControl('serializer ready at cycle %d' % t, rdy, vars_)
         with quiet():
             sim.clk(1)
         if wait > 0:
@@ -115,16 +115,36 @@ def link_run(ratio, nbytes, gap, values=None, rec=None, horizon=None):
         tx.append(w['line'].get())
         dv = w['des_valid'].get()
         if not is_conc(dv):
-            raise core.Unsupported('deserializer valid became data dependent')
+            raise DataDependentControl('deserializer valid at cycle %d' % t, dv, vars_)
         if dv == 1:
             delivered.append(w['des_v'].get())
     return delivered, tx, vars_, bytes_, accepted
 
 
+class DataDependentControl(core.Unsupported):
+    def __init__(self, msg, term, vars_):
+        super().__init__(msg)
+        self.term, self.vars_ = term, vars_
+
+
 def quick_task(p, cfg, rec):
     ratio, nbytes, gap = cfg['ratio'], cfg['nbytes'], cfg['gap']
     ctx.simplify_merge = True
-    delivered, tx, vars_, bytes_, accepted = link_run(ratio, nbytes, gap, rec=rec)
+    try:
+        delivered, tx, vars_, bytes_, accepted = link_run(ratio, nbytes, gap, rec=rec)
+    except DataDependentControl as e:
+        # a handshake line depends on the byte values: pick byte values for both outcomes and replay them
+        def replay(values):
+            dl, txc, _, bs, acc = link_run(ratio, nbytes, gap, values=values)
+            if dl != bs:
+                return {'sent': bs, 'delivered': dl, 'ratio': ratio, 'gap': gap, 'note': str(e)}
+            return None
+        t = e.term
+        c1 = core.as_z3_bool(t != 0)
+        r1 = p.prove('handshake line independent of the data (%s), case high' % e, c1, inputs=e.vars_, replay=replay)
+        if r1 is None:
+            p.prove('handshake line independent of the data (%s), case low' % e, z3.Not(c1), inputs=e.vars_, replay=replay)
+        return
     p.res['states'] += 1
     p.res['transitions'] += len(tx)
 
